@@ -12,10 +12,12 @@ import (
 	"os/exec"
 	"path/filepath"
 	"sort"
+	"strconv"
 	"strings"
 	"sync"
 	"sync/atomic"
 	"syscall"
+	"time"
 )
 
 // ---- wire types (mirror simrt.Scenario / simrt.Result) -------------------------------
@@ -312,6 +314,14 @@ func (w *Worker) Exec(j *Job) Result {
 	}
 	w.pool.Runs.Add(1)
 	var res Result
+	if traceSlowMs > 0 {
+		t0 := time.Now()
+		defer func() {
+			if d := time.Since(t0); d > time.Duration(traceSlowMs)*time.Millisecond {
+				fmt.Fprintf(os.Stderr, "SLOWRUN %v node=%s argv=%v sched=%s status=%s ticks=%d goroutines=%d retire=%v\n", d.Round(time.Millisecond), j.Node, j.Argv, j.Sched, res.Status, res.Ticks, res.Goroutines, res.Retire)
+			}
+		}()
+	}
 	_, werr := pr.in.Write(line)
 	var rerr error
 	var resp []byte
@@ -344,11 +354,20 @@ func (w *Worker) Exec(j *Job) Result {
 		delete(w.procs, j.Node)
 		w.pool.Respawns.Add(1)
 	}
+	if res.Status == "stuck" {
+		// nothing ticked, nothing was schedulable and nothing exited for 90 s of real time:
+		// the simulator lost track of the run. That is trouble of the machinery, never a verdict.
+		infra("simulated run got stuck (node=%s argv=%v sched=%s seed=%d ticks=%d goroutines=%d)", j.Node, j.Argv, j.Sched, j.Seed, res.Ticks, res.Goroutines)
+	}
 	w.pool.Ticks.Add(res.Ticks)
 	w.pool.Sched.Add(int64(res.SchedEvts))
 	w.pool.MapDec.Add(int64(res.MapEvts))
 	return res
 }
+
+// traceSlowMs (VERIF_TRACE_SLOW=<ms>) prints simulated runs that take longer in real time: a
+// maintenance aid, it changes nothing a run does.
+var traceSlowMs, _ = strconv.Atoi(os.Getenv("VERIF_TRACE_SLOW"))
 
 func fatalClass(stderr string) string {
 	for _, l := range strings.Split(stderr, "\n") {
